@@ -51,7 +51,17 @@ impl TypeSpace {
 
         let non_null = non_nulls.into_iter().next()?;
 
-        let (type_entry, _) = self.convert_option(type_name, metadata, non_null).ok()?;
+        // If a name is required for the optional type (in which case we'll
+        // generate a newtype wrapper to give it that name) we invent a new
+        // name for the inner type; otherwise the inner type can have the name.
+        let inner_type_name = match &type_name {
+            Name::Required(name) => Name::Suggested(format!("{}Inner", name)),
+            _ => type_name,
+        };
+
+        let (type_entry, _) = self
+            .convert_option(inner_type_name, metadata, non_null)
+            .ok()?;
 
         Some(type_entry)
     }
